@@ -57,6 +57,7 @@ type JobScenario struct {
 	NotStarted bool     `json:"notStarted,omitempty"` // job is created but never started by the harness; action u:start available
 	SecondJob  bool     `json:"secondJob,omitempty"`
 	MaxResync  int      `json:"maxResync,omitempty"` // budget of spurious re-syncs (informer resync) of the Job key
+	Unkill     bool     `json:"unkill,omitempty"`    // the user may try to remove the kill timestamp again
 	Probes     bool     `json:"probes,omitempty"`    // also stop the clock one second before every deadline
 
 	Budget  mc.Budget `json:"budget"`
@@ -88,6 +89,8 @@ type jobMem struct {
 	VanishUsed      int               `json:"vanish"`
 	FlapUsed        int               `json:"flap"`
 	ResyncUsed      int               `json:"resync"`
+	KillPassed      map[string]bool   `json:"killPassed"` // jobs whose kill timestamp has passed at some point
+	UnkillUsed      int               `json:"unkill"`
 	Deleted         map[string]bool   `json:"deleted"`
 	CreateAfterKill bool              `json:"-"`
 }
@@ -121,6 +124,10 @@ func (m jobMem) clone() jobMem {
 	c.Deleted = map[string]bool{}
 	for k, v := range m.Deleted {
 		c.Deleted[k] = v
+	}
+	c.KillPassed = map[string]bool{}
+	for k, v := range m.KillPassed {
+		c.KillPassed[k] = v
 	}
 	return c
 }
@@ -207,7 +214,7 @@ func newJobWorld(scn JobScenario) *jobWorld {
 	}
 	w := &jobWorld{scn: scn}
 	w.mem = jobMem{Created: map[string]int{}, CreatedName: map[string]bool{}, Succeeded: map[string]bool{},
-		LastEnd: map[string]int64{}, Ended: map[string]string{}, EditedFin: map[string]bool{}, Deleted: map[string]bool{}}
+		LastEnd: map[string]int64{}, Ended: map[string]string{}, EditedFin: map[string]bool{}, Deleted: map[string]bool{}, KillPassed: map[string]bool{}}
 	b := mc.NewBase(cfgs, true)
 	w.Base = b
 	b.Budget = scn.Budget
@@ -429,6 +436,9 @@ func (w *jobWorld) envEnabled() []string {
 				out = append(out, "u:kill:"+short+":"+off)
 			}
 		}
+		if s.Unkill && w.mem.UnkillUsed < 1 && rj.Spec.KillTimestamp != nil && rj.DeletionTimestamp == nil {
+			out = append(out, "u:unkill:"+short)
+		}
 		if s.DeleteJob && rj.DeletionTimestamp == nil && !w.mem.Deleted[jk] {
 			out = append(out, "u:delete:"+short)
 		}
@@ -543,6 +553,13 @@ func (w *jobWorld) envApply(action string) {
 		if _, err := w.API.Update("env", sim.Jobs, "", rj); err != nil {
 			panic(fmt.Sprintf("user kill rejected: %v", err))
 		}
+	case "u:unkill":
+		// The user tries to take the kill request back (through real admission; refused once it has passed).
+		w.mem.UnkillUsed++
+		rj := w.API.Job("default/" + parts[2]).DeepCopy()
+		rj.Spec.KillTimestamp = nil
+		rj.ResourceVersion = ""
+		_, _ = w.API.Update("env", sim.Jobs, "", rj)
 	case "u:delete":
 		w.mem.Deleted["default/"+parts[2]] = true
 		if err := w.API.Delete("env", sim.Jobs, "default/"+parts[2], -1); err != nil {
@@ -810,6 +827,9 @@ func (w *jobWorld) onPodWrite(wr sim.Write) {
 			if cj.DeletionTimestamp != nil {
 				w.Violate("C08", "create-while-deleting", fmt.Sprintf("pod %s created although the job is being deleted", p.Name), w.features()...)
 			}
+		}
+		if w.mem.KillPassed[sim.ObjKey(rj)] && rj.Spec.KillTimestamp == nil {
+			w.Violate("C12", "create-after-kill", fmt.Sprintf("pod %s created after the kill timestamp had passed (it was removed again afterwards)", p.Name), w.features()...)
 		}
 		if ts := rj.Spec.KillTimestamp; ts != nil && !ts.After(w.Now()) {
 			if cj := w.cachedJob(sim.ObjKey(rj)); cj != nil && cj.Spec.KillTimestamp != nil {
@@ -1127,6 +1147,12 @@ func (w *jobWorld) onJobWrite(wr sim.Write) {
 // checkState evaluates state invariants and, in quiescent states, the
 // quiescence predicates.
 func (w *jobWorld) checkState(quiescent bool) {
+	for _, jk := range w.jobKeys {
+		if rj := w.API.Job(jk); rj != nil && rj.Spec.KillTimestamp != nil && rj.Spec.KillTimestamp.Time.Before(w.Now()) && !rj.Status.StartTime.IsZero() {
+			// strictly in the past: from then on admission refuses to change it
+			w.mem.KillPassed[jk] = true
+		}
+	}
 	if !quiescent {
 		return
 	}
